@@ -15,8 +15,8 @@ RULE = (
     "least one name with >=2 manifest entries"
 )
 BOUNDS = {
-    "quick": "2 names x 2 source files x 3 contents, 13 operations, all histories to depth 5 (BFS with canonical-state de-duplication)",
-    "thorough": "same alphabet, depth 7",
+    "quick": "2 names x 2 source files x 3 contents, 13 operations, all histories to depth 5 (BFS with canonical-state de-duplication); plus all histories to depth 4 over 7 operations for a source file named <sha256 of its bytes>.csv and for a source file without extension",
+    "thorough": "same alphabet, depth 7; the two special source files to depth 5",
 }
 DEPTH = {"quick": 5, "thorough": 7}
 BUDGET = {"quick": 500, "thorough": 3400}
@@ -25,12 +25,32 @@ ASSUMPTIONS = [
     "two histories reaching the same masked tree + same model state + same per-name add/remove record of the live instance have the same "
     "futures (a first version merged on the tree and model only, i.e. assumed the managers keep no per-instance state; seed c11-2, an "
     "in-memory manifest cache that goes stale after remove, showed that this abstraction hides exactly such bugs)",
-    "source files start with s1.csv=A, s2.txt=B (two different extensions) so that every add is enabled; remove of an unregistered name is disabled",
+    "source files start with s1.csv=A, s2.txt=B (two different extensions), <sha256(A)>.csv=A, s4=B so that every add is enabled; remove of an unregistered name is disabled",
 ]
 
 CONTENTS = {"A": "a,b\n1,2\n", "B": "a,b\n3,4\n5,6\n", "C": "x\n"}
 SRCS = ["s1.csv", "s2.txt"]
 NAMES = ["n1", "n2"]
+# two more source files, explored in their own (smaller) operation alphabets: one whose base name already IS the sha256 of its
+# initial bytes plus an extension (a file taken out of another content-addressed store), one without any extension
+SHA_SRC = refstore.sha(CONTENTS["A"]) + ".csv"
+NOEXT_SRC = "s4"
+INITIAL = {"s1.csv": "A", "s2.txt": "B", SHA_SRC: "A", NOEXT_SRC: "B"}
+
+
+def extra_histories(tier):
+    import itertools
+
+    hs = []
+    depth = 4 if tier == "quick" else 5
+    for x in (SHA_SRC, NOEXT_SRC):
+        alpha = [["add", "n1", x], ["add", "n2", x], ["write", x, "B"], ["write", x, "A"], ["add", "n1", "s1.csv"], ["remove", "n1"], ["new"]]
+        for n in range(1, depth + 1):
+            for t in itertools.product(alpha, repeat=n):
+                if not any(o[0] == "add" and o[2] == x for o in t):
+                    continue
+                hs.append([list(o) for o in t])
+    return hs
 
 
 def ops(tier):
@@ -58,7 +78,7 @@ def run_history(hist):
     root = sandbox.root()
     sandbox.reset_dirs("inputs", "srcs", "archive")
     srcdir = os.path.join(root, "srcs")
-    src = {"s1.csv": "A", "s2.txt": "B"}
+    src = dict(INITIAL)
     for s, c in src.items():
         with open(os.path.join(srcdir, s), "w", encoding="utf-8", newline="") as f:
             f.write(CONTENTS[c])
